@@ -23,6 +23,10 @@ class DeviceError(Exception):
     pass
 
 
+class DeviceAttrError(DeviceError, AttributeError):
+    """A device failure that happens to be an AttributeError (e.g. None.gain after a lost connection)."""
+
+
 class VClock:
     def __init__(self):
         self.t = 1000.0
@@ -70,6 +74,10 @@ class Lab:
         self.fail_call = None  # device call index that raises DeviceError
         self.fail_status = None  # device call index whose returned status fails
         self.fault_at = None
+        self.fault_msg = None
+        self.fail_as_attribute_error = False
+        self.ledger_msg = []  # the message in flight at each device call
+        self.inflight = None
         self.pending = []  # statuses not yet finished: (status, finish_at virtual time)
         self.out = io.StringIO()
         lab = self
@@ -153,9 +161,12 @@ class Lab:
         j = self.ncalls
         self.ncalls += 1
         self.ledger.append((j, dev.name, op, args))
+        self.ledger_msg.append(self.inflight)
         if self.fail_call == j:
             self.fault_at = (self.steps, len(self.msgs), len(self.docs))
-            raise DeviceError(f"{dev.name}.{op} failed (call {j})")
+            self.fault_msg = self.inflight
+            cls = DeviceAttrError if self.fail_as_attribute_error else DeviceError
+            raise cls(f"{dev.name}.{op} failed (call {j})")
         return j
 
     def status(self, j, delay=0.0):
@@ -164,6 +175,7 @@ class Lab:
         exc = None if ok else DeviceError(f"status of call {j} failed")
         if not ok:
             self.fault_at = (self.steps, len(self.msgs), len(self.docs))
+            self.fault_msg = self.inflight
         if delay > 0:
             self.loop.call_later(delay, st.finish, ok, exc)
         else:
@@ -274,6 +286,7 @@ class Dev:
         return [self]
 
     def read_configuration(self):
+        self.lab.device_call(self, "read_configuration")
         return {self.name + "_cfg": {"value": self.cfg, "timestamp": self.lab.clock.t}}
 
     def describe_configuration(self):
@@ -304,10 +317,14 @@ class Motor(Dev):
         j = self.lab.device_call(self, "set", v)
         st = self.lab.status(j, self.delay)
         st.add_callback(lambda s, v=v: setattr(self, "pos", v) if s.success else None)
+        self._moving = st
         return st
 
     def stop(self, success=True):
         self.lab.device_call(self, "stop")
+        mv = getattr(self, "_moving", None)
+        if mv is not None and not mv.done and not success:
+            mv.finish(False, DeviceError(f"{self.name} stopped with success=False while moving"))  # what an ophyd positioner does
 
     def read(self):
         self.lab.device_call(self, "read")
